@@ -140,7 +140,10 @@ Proof.
     apply filter_In in Hv as [Hv Hu]. apply in_map_iff in Hv as [e [<- He]].
     rewrite forallb_forall in G6. specialize (G6 e He). rewrite Hu in G6. cbn [negb orb] in G6.
     rewrite G6 in Hc. now rewrite andb_false_r in Hc. }
-  rewrite Hd.
+  assert (Hff : first_fails s (filter (under p) (map ie_path (st_index s))) = false).
+  { unfold first_fails. destruct (filter (under p) (map ie_path (st_index s))) as [|v r]; [reflexivity|].
+    cbn [existsb] in Hd. now apply orb_false_iff in Hd as [Hd _]. }
+  rewrite Hff.
   rewrite !fold_idx_remove, !fold_wt_remove. f_equal. f_equal.
   - apply filter_ext_in. intros e He. f_equal.
     rewrite !mem_path_filter, mem_idx_paths, mem_wt_paths.
